@@ -5,7 +5,8 @@
 (* recording target saw when the REAL provider and the REAL http gun fired *)
 (* the rendered entry.  Wire(c) is recomputed here from HttpWire; every    *)
 (* clause of the acceptance relation is its own invariant so that a        *)
-(* violation names the rule that broke.                                    *)
+(* violation names the rule that broke.  Multi-entry file cases give one   *)
+(* line per entry; the entry's case is EntryCase(file, k).                 *)
 (***************************************************************************)
 EXTENDS HttpWireMC, Json, IOUtils
 
@@ -14,17 +15,24 @@ VARIABLE l
 Trace == ndJsonDeserialize(IOEnv.VERIF_TRACE)
 Chunk == 8
 
+\* a line of a multi-entry file case carries the file case and the index k of the entry it reports
+IsFile(r) == "entries" \in DOMAIN r.c
+CaseOf(r) == IF IsFile(r) THEN EntryCase(r.c, r.k) ELSE r.c
+
 \* l = 0 is a dummy root so that TLC's workers share the lines (see TraceProfile)
 TInit == l = 0 /\ C = [fmt |-> "none"]
 TNext == /\ \/ l = 0 /\ l' \in {j \in 1..Len(Trace) : j % Chunk = 1}
             \/ l > 0 /\ l % Chunk # 0 /\ l < Len(Trace) /\ l' = l + 1
-         /\ C' = Trace[l'].c
+         /\ C' = CaseOf(Trace[l'])
 
 R == Trace[IF l = 0 THEN 1 ELSE l]
 O == R.obs
 
 \* the driver ran a case of the generated space and could build provider and gun
-WellFormed   == l = 0 \/ (C \in Cases /\ R.err = "" /\ R.acq = 1)
+\* (a file is played once: acq = number of its entries, every entry gets its own line)
+WellFormed   == l = 0 \/ /\ R.err = ""
+                          /\ IF IsFile(R) THEN R.c \in Files /\ R.acq = Len(R.c.entries) /\ R.k \in DOMAIN R.c.entries
+                                          ELSE C \in Cases /\ R.acq = 1
 \* exactly one request reached a server
 TArrived     == l = 0 \/ Arrived(C, O)
 \* ... the gun's target, with the scheme chosen by ssl
